@@ -212,6 +212,11 @@ func (r *Runner) staticShard(shard int, wg *sync.WaitGroup) {
 					}
 					_ = json.Unmarshal(line, &f)
 					r.addFail("static", f.Sig, f.Spec, f.Detail, f.First, 0)
+				case "part":
+					var s Summary
+					if err := json.Unmarshal(line, &s); err == nil {
+						r.mergePart(&s)
+					}
 				case "sum":
 					var s Summary
 					if err := json.Unmarshal(line, &s); err == nil {
@@ -277,6 +282,20 @@ func (r *Runner) harness(format string, args ...any) {
 	r.harnessErr = append(r.harnessErr, msg)
 	r.mu.Unlock()
 	r.logf("HARNESS ERROR: %s", msg)
+}
+
+// mergePart adds a worker's checkpoint (counts since its previous checkpoint).
+func (r *Runner) mergePart(s *Summary) {
+	r.mu.Lock()
+	r.executed += s.Executed
+	r.nontrivial += s.Nontrivial
+	for _, h := range s.Outcomes {
+		r.outcomes[h] = struct{}{}
+	}
+	for k, v := range s.Counters {
+		r.counters[k] += v
+	}
+	r.mu.Unlock()
 }
 
 func (r *Runner) mergeSummary(s *Summary) {
@@ -620,7 +639,24 @@ func (r *Runner) confirm(st *sigTotal, tries int) {
 	if len(st.Specs) == 0 {
 		return
 	}
-	spec := st.Specs[0]
+	// the first kept spec is the smallest failing case; if it does not reproduce alone (it may have
+	// failed through pollution by an earlier case of the same worker) the other kept specs are tried
+	// before the signature is dropped
+	for si, spec := range st.Specs {
+		if 0 < si && 0 < st.Confirmed {
+			break
+		}
+		if 0 < si {
+			st.Attempts = 0
+		}
+		r.confirmSpec(st, spec, tries)
+		if 0 < st.Confirmed && 0 < si {
+			st.Specs[0], st.Specs[si] = st.Specs[si], st.Specs[0]
+		}
+	}
+}
+
+func (r *Runner) confirmSpec(st *sigTotal, spec string, tries int) {
 	var wg sync.WaitGroup
 	var mu sync.Mutex
 	for i := 0; i < tries; i++ {
